@@ -90,6 +90,13 @@ def worker : String → List Sexp → Option Sexp
       | _ => none
     let polf : Int → Int := fun k => (pol[(k - 1).toNat]?).getD 0
     pure (ofBool (Pred.C04.chainOk (← toInt? mx) (← toBool? rec) polf xs final))
+  -- (c04.backoffOk (pol1 pol2 …) ((tried start fin failed)…)): counters grow by one, every retry waits for its back-off
+  | "c04.backoffOk", [pol, xs] => do
+    let pol ← mapM? toInt? pol
+    let xs ← mapM? obsOf xs
+    let polf : Int → Int := fun k => (pol[(k - 1).toNat]?).getD 0
+    let k0 := match xs with | x :: _ => x.tried | [] => 0
+    pure (ofBool (Pred.C04.countersOk k0 xs && Pred.C04.backoffOk polf xs))
   | "c06.successorOk", [now, per, ts0, du, p] => do
     let per ← toInt? per
     if per ≤ 0 then none
